@@ -219,6 +219,8 @@ static void build_ops() {
 	if (opt.og & OG_SERIAL) { add(OP_SAVE); for (int k_i = 0, k = g_ids[0]; k_i < g_nids; ++k_i, k = g_ids[k_i < g_nids ? k_i : 0]) { add(OP_LOAD, k); add(OP_LOAD, k, 1); add(OP_LOAD, k, 2); }
 #if VX_MANUAL
 		add(OP_LOAD, N); add(OP_LOAD, N, 1);
+#else
+		add(OP_LOAD_BLANK);
 #endif
 	}
 #endif
